@@ -252,7 +252,7 @@ theorem startStage_ok {m : Machine} {pre argv : List String} {p : Parsed} {r : R
       decide (r.threads > (if r.useMask then m.maskPus else m.pus))) = false := by
   unfold startStage at h
   simp only [bind_ok, check_ok, checkU_ok, pure_ok] at h
-  obtain ⟨_, _, _, hthr, _, _, _, _, pol, hpol, _, _, _, _, _, _, _, hunk, _, _, hr⟩ := h
+  obtain ⟨_, _, _, hthr, _, _, _, _, pol, hpol, _, _, _, _, _, _, _, hunk, hr⟩ := h
   subst hr
   refine ⟨rfl, rfl, ?_, rfl, hunk, hthr⟩
   split at hpol
